@@ -37,6 +37,23 @@ def const(v):
     return ('const', v)
 
 
+def sym_key(t):
+    """ordering key of the operands of a symmetric comparison: constants last, otherwise by structure"""
+    return (t[0] == 'const', repr(t))
+
+
+def mkcmp(op, a, b):
+    """canonical comparison term: `>`/`>=` are written as `<`/`<=` with swapped operands, and the operands of the symmetric
+    operators (== != is is-not) are ordered by sym_key - so `a != b` and `b != a` are the same term"""
+    if op == '>':
+        op, a, b = '<', b, a
+    elif op == '>=':
+        op, a, b = '<=', b, a
+    if op in ('==', '!=', 'is', 'is not') and sym_key(a) > sym_key(b):
+        a, b = b, a
+    return ('cmp', op, a, b)
+
+
 def is_const(t, v=None, anyval=False):
     if not (isinstance(t, tuple) and t and t[0] == 'const'):
         return False
